@@ -912,7 +912,7 @@ def harnesses(tier):
         hs += [TreeCount(1, 2, 1), TreeCount(2, 1, 2), TreeCount(1, 1, 1, res=1), TreeCount(1, 1, 2, res=1, staggered=True), EmptyTree()]
         hs += [PairIteration(3, True), PairIteration(3, False)]
         hs += [Accumulate(2, 1, 2, True), Accumulate(2, 2, 1, False)]
-        hs += [MaxAngle(1, 1, "kpc"), MaxAngle(2, 1, "Mpc/h"), MaxAngle(1, 2, "arcmin"), Linkage(2)]
+        hs += [MaxAngle(2, 1, "kpc"), MaxAngle(2, 1, "Mpc/h"), MaxAngle(1, 2, "arcmin"), Linkage(2)]
         hs += [ProcessPair(2, 2, "kpc", False), ProcessPair(2, 1, "Mpc/h", True), Wiring(), EndToEndSample("equator_wrap")]
     else:
         hs += [MaxAngle(2, 2, u) for u in UNITS] + [MaxAngle(3, 1, "kpc"), Linkage(2), Linkage(3), Linkage(2, N=3)]
